@@ -313,6 +313,10 @@ def rebuild_keeps_everything(ctx, rule='SINK'):
             emptied = c
         if emptied is None:
             continue
+        absorbed_before = any(isinstance(l, (ast.For, ast.While)) and l.lineno < emptied.lineno
+                              and 'unused' in norm(l.iter if isinstance(l, ast.For) else l.test) for l in walk_local(fi.node))
+        if absorbed_before:
+            continue            # emptied after the loop that went through it
         loops_after = [l for l in walk_local(fi.node) if isinstance(l, (ast.For, ast.While)) and l.lineno > emptied.lineno]
         first_loop = min((l.lineno for l in loops_after), default=10 ** 9)
         rets = [r for r in walk_local(fi.node) if isinstance(r, ast.Return) and emptied.lineno < r.lineno < first_loop]
